@@ -3,8 +3,8 @@
 use crate::engine::{Check, Outcome, Plan, Tier, Verdict};
 use crate::util::*;
 use jxl_oxide::{CropInfo, JxlImage};
-use jxlref::gen::frames::*;
 use jxlref::gen::modular::*;
+use jxlref::gen::stream::*;
 use jxlref::src::Src;
 use serde_json::json;
 
@@ -130,19 +130,10 @@ impl Check for C06 {
         let rb = src.fork_bytes(96);
         let mut rsrc = Src::new(&rb);
         let mut o = Outcome::pass();
-        let kind = src.weighted(&[3, 2]);
-        let (bytes, mut classes, desc, feature) = if kind == 0 {
-            let c = gen_modular_case(&mut src, &ModGenOpts { max_dim: 400, multi_group: 60, orientation: true, ..Default::default() });
-            let feature = c.classes.iter().any(|x| x == "multi-group" || x.starts_with("tx:squeeze")) || c.ih.ec_info.iter().any(|e| e.dim_shift > 0);
-            let d = crate::checks::c03::describe_case(&c);
-            (c.bytes, c.classes, d, feature)
-        } else {
-            let c = gen_multi_case(&mut src, &MultiOpts::default());
-            let feature = c.classes.iter().any(|x| x == "crop" || x == "patches");
-            let d = crate::checks::c05::describe_multi(&c);
-            (c.bytes, c.classes, d, feature)
-        };
-        classes.push(if kind == 0 { "image:modular-single".into() } else { "image:multi-frame".to_string() });
+        let mut ao = AnyOpts::default();
+        ao.modular = ModGenOpts { max_dim: 400, multi_group: 60, orientation: true, ..Default::default() };
+        let c = gen_any_case(&mut src, &ao);
+        let (bytes, mut classes, desc, feature) = (c.bytes, c.classes, json!(c.desc), c.has_neighbourhood_feature);
         o.case_hash = (crate::engine::fnv(&bytes) ^ crate::engine::fnv(&rb)) | 1;
         if describe {
             o.describe = Some(json!({"image": desc}));
